@@ -6,6 +6,7 @@ from runner import Result
 import profiles, oracles
 
 RUNTIME_PROPS = {"C04", "C06", "C08", "C13"}
+UNRECOGNISED = []     # rejections accepted on content because their wording is not one the classifier knows
 
 
 def canon_facts(f):
@@ -17,6 +18,7 @@ def canon_facts(f):
     f.pop("enum_tables", None)
     f.pop("addr_tables", None)
     f.pop("op_tables", None)
+    f.pop("message", None)
     if f.get("outcome") == "error":
         if f.get("stage") == "front":
             f["names"] = []
@@ -35,6 +37,16 @@ def facts_equal(impl, model):
         alts = model.get("alts") or []
         if alts and impl.get("kind") == model.get("kind") and impl.get("names") in alts:
             return True, None
+        # a rejection whose wording the classifier does not know (the text of a diagnostic is free as long as it says what
+        # the properties require): same stage, and the message names every entity and states every number the model's
+        # error carries
+        if impl.get("kind") in ("other", "front_other") and model.get("kind") not in ("other", "front_other"):
+            msg = impl.get("message") or ""
+            same_stage = (impl.get("stage") == "front") == (model.get("stage") == "front")
+            if msg and same_stage and all(str(n) in msg for n in model.get("names") or []) \
+                    and all(str(n) in msg for n in model.get("numbers") or []):
+                UNRECOGNISED.append(msg[:120])
+                return True, None
     return False, first_diff(a, b)
 
 
@@ -193,6 +205,9 @@ def correspond_gen(prop):
             if cerr:
                 res.harness_error = cerr
         res.distinct_nontrivial = len(seen)
+        if UNRECOGNISED:
+            stats["rejections_with_unrecognised_wording"] = {"count": len(UNRECOGNISED), "examples": sorted(set(UNRECOGNISED))[:5]}
+            del UNRECOGNISED[:]
         res.stats = stats
         res.rule = oracles.RULES.get(prop, "")
         return res
